@@ -978,7 +978,12 @@ func (x *Exec) evalLoc(ctx *SpecCtx, e *Expr) []Loc {
 		return []Loc{{Heap: "G_" + e.Args[0].Name, Sort: SArr(SInt, es), Obj: objOf(x.eval(&octx, e.Args[1]))}}
 	}
 	if e.Kind == "unary" && e.Name == "*" {
-		p, ok := x.eval(&octx, e.Args[0]).(PtrV)
+		pv := x.eval(&octx, e.Args[0])
+		if iv, isIface := pv.(IfaceV); isIface && iv.Concrete != nil {
+			// an "any" argument that statically holds a pointer (ReadASN1Integer(&n))
+			pv = iv.Concrete
+		}
+		p, ok := pv.(PtrV)
 		if !ok {
 			specFail("modifies *p: p must be a pointer in %s", e.String())
 		}
